@@ -116,10 +116,23 @@ func init() {
 		switch ghostKind(g) {
 		case "flatereader":
 			src := ghostOf(g.Ghost["src"].(Value))
+			var srcLimit *smt.Term
+			if ghostKind(src) == "limitreader" {
+				// the inflater is fed through a LimitReader: it sees the first n bytes of the compressed input
+				srcLimit = src.Ghost["n"].(*smt.Term)
+				src = ghostOf(src.Ghost["inner"].(Value))
+			}
 			if ghostKind(src) != "bytesreader" {
 				in.end("unmodelled", "flate reader over %s at %s", ghostKind(src), in.where())
 			}
 			data := in.stringOfBytes(src.Ghost["data"].(*SliceV))
+			if srcLimit != nil {
+				L := smt.Ite(smt.BVSlt(srcLimit, smt.BV(0, 64)), smt.BV(0, 64), srcLimit)
+				cut := smt.UF("take", []string{"String", "(_ BitVec 64)"}, &smt.Term{K: smt.KStr}, data, L)
+				in.Assume(smt.Implies(smt.BVSle(BLen(data), L), smt.Eq(cut, data)))
+				in.Assume(smt.Eq(BLen(cut), smt.Ite(smt.BVSle(BLen(data), L), BLen(data), L)))
+				data = cut
+			}
 			content = Inflate(data)
 			corrupt = InflateErr(data)
 			in.X.noteAssumption("compress/flate: inflate(data) = bytes producible before end-of-stream or error; inflate_err(data) = stream corrupt/truncated after them (uninterpreted functions of the input bytes)")
@@ -227,7 +240,10 @@ func init() {
 		}
 		return m
 	}
-	intrinsics["vMemMark"] = func(in *Interp, fn *ssa.Function, a []Value) Value { return nil }
+	intrinsics["vMemMark"] = func(in *Interp, fn *ssa.Function, a []Value) Value {
+		delete(in.Ghost, "materialised") // measure from here
+		return nil
+	}
 	intrinsics["vReadAllCalls"] = func(in *Interp, fn *ssa.Function, a []Value) Value {
 		k, _ := in.Ghost["readall.calls"].(int)
 		return smt.BV(uint64(k), 64)
